@@ -29,6 +29,25 @@ REG.invariants['HotBuffer'] = hot_inv
 REG.invariants['ColdBuffer'] = cold_inv
 
 
+def _tier_init_ens(c):
+    s = c.n.self
+    return [('C07-starts-at-full-free-capacity', z3.And(s.total_capacity.t == c.o.capacity.t, s.current_capacity.t == c.o.capacity.t)),
+            ('nothing-stored', s.observations['stored'].n == 0), ('no-transfer-in-progress', slot(s) == 0)]
+
+
+# the tier constructors establish the tier invariants (given a positive configured capacity and rate)
+REG.contract('HotBuffer.__init__', params={'capacity': 'num', 'max_ingest_data_rate': 'num'},
+             requires=lambda c: [('assume:configured-capacity-and-rate-positive', z3.And(c.o.capacity.t > 0, c.o.max_ingest_data_rate.t > 0))],
+             world=lambda eng: {'self': ObjV('HotBuffer', {}, 'HotBuffer')},
+             ensures=lambda c: _tier_init_ens(c) + [('nothing-scheduled', z3.And(c.n.self.observations['scheduled'].n == 0,
+                                                                               c.n.self.observations['finished'].n == 0))],
+             invariants='post', modifies=['*'], props=['C07', 'C18', 'C19'])
+REG.contract('ColdBuffer.__init__', params={'capacity': 'num', 'max_data_rate': 'num', 'env': 'env'},
+             requires=lambda c: [('assume:configured-capacity-and-rate-positive', z3.And(c.o.capacity.t > 0, c.o.max_data_rate.t > 0))],
+             world=lambda eng: {'self': ObjV('ColdBuffer', {}, 'ColdBuffer')},
+             ensures=_tier_init_ens, invariants='post', modifies=['*'], props=['C07', 'C18', 'C19'])
+
+
 def size_of(sv, ob):
     return z3.Select(sv.heap('Observation', 'total_data_size'), ob)
 
@@ -187,6 +206,24 @@ def buffer_inv(v, sv):
 
 
 REG.invariants['Buffer'] = buffer_inv
+REG.zero_at_init['Buffer'] = [('unlogged_buffer', 'int')]
+
+
+def _buf_init_req(c):
+    b = c.o.config.buffer
+    return [('assume:configured-capacities-and-rates-positive', z3.And(
+        b['hot']['capacity'].t > 0, b['hot']['max_ingest_rate'].t > 0, b['cold']['capacity'].t > 0, b['cold']['max_data_rate'].t > 0,
+        _config.mult(c.o.config.timestep_unit.t) > 0))]
+
+
+# Buffer.__init__ establishes the invariants of the actor and of both tiers from a well-formed configuration
+REG.contract('Buffer.__init__', params={'env': 'env', 'cluster': 'any', 'config': 'obj:Config', 'planner': 'any'},
+             requires=_buf_init_req,
+             world=lambda eng: {'self': ObjV('Buffer', {}, 'Buffer')},
+             ensures=lambda c: [('C19-both-tiers-full-free', z3.And(hot(c.n.self).current_capacity.t == hot(c.n.self).total_capacity.t,
+                                                                   cold(c.n.self).current_capacity.t == cold(c.n.self).total_capacity.t)),
+                                ('C13-no-events', c.n.self.events.n == 0), ('nothing-left-to-transfer', c.n.self._data_left_to_transfer.t == 0)],
+             invariants='post', modifies=['*'], props=['C07', 'C19', 'C13'])
 
 
 def obs_ok(sv, ob):
